@@ -7,7 +7,9 @@ CONSTANTS MaxDepth, Profile, EmitOn
 
 VARIABLES S, res, hist
 vars == <<S, res, hist>>
-View == S
+\* profile "hist": no two histories are merged (state hidden in the implementation - memos inside an engine or an
+\* element - is not part of S, so calls that leave S unchanged, like compile, still matter)
+View == IF Profile = "hist" THEN <<S, hist>> ELSE <<S, <<>>>>
 
 Pars == {"P1", "P2"}
 ReadyCalls ==
@@ -37,7 +39,11 @@ PureCalls ==
   \cup {<<"step", e, "np", "P1", "O0">> : e \in {"L2", "R1"}}
   \cup {<<"add_later", "R2">>, <<"add_later", "D1">>}
   \cup {<<"net_step_fail", "np">>}
+HistCalls ==
+  {<<"net_step", "sx", "P1", "O0", "">>, <<"compile", "sx">>, <<"add_later", "D1">>, <<"add_later", "R2">>,
+   <<"init_all", "">>, <<"init", "D1", "">>, <<"net_step_fail", "">>, <<"step", "L2", "", "P1", "O0">>}
 Calls == CASE Profile = "ready" -> ReadyCalls [] Profile = "engine" -> EngineCalls [] Profile = "pure" -> PureCalls
+           [] Profile = "hist" -> HistCalls
 
 Init == S = Init0 /\ res = <<"init">> /\ hist = <<>>
 Next == \E c \in Calls :
